@@ -47,7 +47,12 @@ Proof. exact dimension_guard_v1. Qed.
 Print Assumptions c18_dimension_guard_v1.
 
 (* --- write path: a point accepted by CheckCompatibleMap (+ id and size tests) has exactly the
-       index dimension for every vector property that the index dispatcher will extract --- *)
+       index dimension for every vector property that the index dispatcher will extract.  The value
+       CheckCompatibleMap validates (ccm_value) IS the value the dispatcher reaches (pval_of, msgpack
+       Decoder.Query on the stored bytes) because both resolve the property by splitting its name on "."
+       and walking maps -- side conditions ccm_resolves_by_nested_walk and dispatch_resolves_by_query, read
+       off the two sources by the translator; e.g. a look-up of the whole name as a literal root key first
+       makes the first one false and this theorem unprovable --- *)
 Theorem c18_write_dimension_guard : forall schema maxsize create_new p,
   validate_ischema schema = true -> point_ok schema maxsize create_new p = true ->
   Forall (fun pr => fst pr = snd pr /\ doc_dim_ok (snd pr) = true) (write_reach schema p).
@@ -245,13 +250,23 @@ Proof. vm_compute. repeat split; reflexivity. Qed.
 
 Definition ex_point : point :=
   mkPt IdValid [("vec"%string, PArr 4 true false); ("flat"%string, PArr 3 true false);
-                ("desc"%string, PStr); ("size"%string, PNum64)] 120.
+                ("desc"%string, PStr); ("size"%string, PNum64)] 120 [].
 Example ex_point_ok : point_ok ex_schema 1000 true ex_point = true /\ write_reach ex_schema ex_point = [(4, 4); (3, 3)].
 Proof. vm_compute. split; reflexivity. Qed.
 Example ex_point_bad :
-  point_ok ex_schema 1000 true (mkPt IdValid [("vec"%string, PArr 5 true false)] 60) = false /\
-  handler_insert2 ex_schema (mkPts [ex_point; mkPt IdValid [("vec"%string, PArr 5 true false)] 60] 1000) = Reject.
+  point_ok ex_schema 1000 true (mkPt IdValid [("vec"%string, PArr 5 true false)] 60 []) = false /\
+  handler_insert2 ex_schema (mkPts [ex_point; mkPt IdValid [("vec"%string, PArr 5 true false)] 60 []] 1000) = Reject.
 Proof. vm_compute. split; reflexivity. Qed.
+
+(* a point that carries a well-formed literal root key "nested.v" next to a nested map whose "v" has the
+   wrong length: the nested walk (= what the dispatcher reaches) counts, the point is refused *)
+Definition ex_dotted_schema : ischema :=
+  [("nested.v"%string, mkIV "vectorFlat" (Some (mkVP 2 "euclidean" 0 0 0%N None)) None None false false)].
+Example ex_literal_key_ignored :
+  point_ok ex_dotted_schema 1000 true (mkPt IdAbsent [("nested.v"%string, PArr 3 true false)] 60 [("nested.v"%string, PArr 2 true false)]) = false /\
+  point_ok ex_dotted_schema 1000 true (mkPt IdAbsent [("nested.v"%string, PArr 2 true false)] 60 [("nested.v"%string, PArr 3 true false)]) = true /\
+  write_reach ex_dotted_schema (mkPt IdAbsent [("nested.v"%string, PArr 2 true false)] 60 [("nested.v"%string, PArr 3 true false)]) = [(2, 2)].
+Proof. vm_compute. repeat split; reflexivity. Qed.
 
 Example ex_create_documented :
   validate_create2 (mkC2 5 [97; 98; 99; 49; 50]%N true ex_schema) = true /\
